@@ -357,6 +357,7 @@ static Result execute(const Toks &t) {
             for (size_t j = 0; j < val.size(); ++j) if (val[j].v != A.val[j].v) r.fail("zero_copy modified the user's values");
         } else {
             std::vector<int> ptr(A.ptr.begin(), A.ptr.end()); std::vector<unsigned> col(A.col.begin(), A.col.end()); std::vector<Q> val(A.val);
+            if (col.empty()) { col.reserve(1); val.reserve(1); }      // as for kind 0: non-null data() for a matrix without entries
             const std::vector<int> ptr0 = ptr; const std::vector<unsigned> col0 = col;
             {
                 auto Z = amgcl::adapter::zero_copy_direct((size_t)A.n, (size_t)A.m, ptr.data(), col.data(), val.data());
